@@ -16,8 +16,8 @@ unsigned long g_consumed;
 unsigned long g_last_varint;
 _Bool g_skip_negative;
 unsigned long nondet_u64(void);
-unsigned long g_scalar; unsigned long g_written; unsigned long g_remaining, g_stream_off, g_str_src_off; _Bool g_str_in_order;
-static void vf_havoc_ghosts(void) { g_consumed = nondet_u64(); g_skip_negative = 0; g_written = nondet_u64(); g_remaining = nondet_u64(); g_stream_off = nondet_u64(); g_str_src_off = g_stream_off; g_str_in_order = 1; g_scalar = nondet_u64(); }
+unsigned long g_scalar; unsigned long g_str_len, g_ws_calls; unsigned long g_written; unsigned long g_remaining, g_stream_off, g_str_src_off; _Bool g_str_in_order;
+static void vf_havoc_ghosts(void) { g_consumed = nondet_u64(); g_skip_negative = 0; g_written = nondet_u64(); g_remaining = nondet_u64(); g_stream_off = nondet_u64(); g_str_src_off = g_stream_off; g_str_in_order = 1; g_scalar = nondet_u64(); g_str_len = nondet_u64(); g_ws_calls = 0; }
 
 _Bool CodedInputStream_ReadVarint64(struct CodedInputStream *self, unsigned long *value)
 __CPROVER_requires(__CPROVER_w_ok(value, sizeof(*value)))
@@ -73,7 +73,6 @@ __CPROVER_assigns(*value, g_consumed, g_last_varint)
 __CPROVER_ensures(__CPROVER_return_value ==> (*value == g_last_varint && g_consumed == __CPROVER_old(g_consumed) + spec_varint_len(g_last_varint)))
 ;
 /* ---- string traits: deserialize takes every byte up to the current limit, whatever the chunking of the underlying stream */
-unsigned long g_str_len;
 _Bool CodedInputStream_GetDirectBufferPointer(struct CodedInputStream *is, void **data, int *size) {
   if (g_remaining == 0) return 0;
   unsigned long k = nondet_u64(); __CPROVER_assume(k >= 1 && k <= g_remaining && k < (1UL << 31));   /* the next chunk of the stream */
@@ -137,4 +136,46 @@ SCALAR_CONTRACTS(U8Traits, uint8_t, unsigned int)
 SCALAR_CONTRACTS(U16Traits, uint16_t, unsigned int)
 SCALAR_CONTRACTS(U32Traits, uint32_t, unsigned int)
 SCALAR_CONTRACTS(U64Traits, uint64_t, unsigned long)
+
+/* ---- float / double traits: fixed32 / fixed64 of the IEEE bit pattern. Stated over bit patterns, so NaN payloads and -0.0 are covered:
+ * serialize writes exactly 4 / 8 bytes carrying the bits of the value, the predicted size is 4 / 8, and deserialize installs exactly the
+ * bits read (so deserialize(serialize(v)) is bit-identical to v). EncodeFloat/DecodeFloat (protobuf: bit_cast) are trusted as bit casts. */
+static inline unsigned int vf_EncodeFloat(float f) { union { float f; unsigned int u; } x; x.f = f; return x.u; }
+static inline float vf_DecodeFloat(unsigned int u) { union { float f; unsigned int u; } x; x.u = u; return x.f; }
+static inline unsigned long vf_EncodeDouble(double f) { union { double f; unsigned long u; } x; x.f = f; return x.u; }
+static inline double vf_DecodeDouble(unsigned long u) { union { double f; unsigned long u; } x; x.u = u; return x.f; }
+void CodedOutputStream_WriteLittleEndian32(struct CodedOutputStream *os, unsigned int v) { g_written += 4; g_w_last = v; }
+void CodedOutputStream_WriteLittleEndian64(struct CodedOutputStream *os, unsigned long v) { g_written += 8; g_w_last = v; }
+_Bool CodedInputStream_ReadLittleEndian32(struct CodedInputStream *self, unsigned int *value)
+__CPROVER_requires(__CPROVER_w_ok(value, sizeof(*value)))
+__CPROVER_assigns(*value, g_consumed, g_last_varint)
+__CPROVER_ensures(__CPROVER_return_value ? (g_consumed == __CPROVER_old(g_consumed) + 4 && g_last_varint == *value) : g_consumed >= __CPROVER_old(g_consumed))
+;
+_Bool CodedInputStream_ReadLittleEndian64(struct CodedInputStream *self, unsigned long *value)
+__CPROVER_requires(__CPROVER_w_ok(value, sizeof(*value)))
+__CPROVER_assigns(*value, g_consumed, g_last_varint)
+__CPROVER_ensures(__CPROVER_return_value ? (g_consumed == __CPROVER_old(g_consumed) + 8 && g_last_varint == *value) : g_consumed >= __CPROVER_old(g_consumed))
+;
+#define FLOAT_CONTRACTS(NAME, CT, UT, ENC, N) \
+size_t NAME##_calculate_serialized_size(CT *value) \
+__CPROVER_assigns() \
+__CPROVER_ensures(__CPROVER_return_value == N); \
+void NAME##_serialize(CT *value, struct CodedOutputStream *os) \
+__CPROVER_requires(__CPROVER_is_fresh(value, sizeof(*value)) && g_written < (1UL << 60)) __CPROVER_assigns(g_written, g_w_last) \
+__CPROVER_ensures(g_written == __CPROVER_old(g_written) + N && g_w_last == ENC(*value)); \
+_Bool NAME##_deserialize(struct CodedInputStream *is, CT *value) \
+__CPROVER_requires(__CPROVER_is_fresh(value, sizeof(*value)) && g_consumed < (1UL << 60)) __CPROVER_assigns(*value, g_consumed, g_last_varint) \
+__CPROVER_ensures(__CPROVER_return_value ==> (ENC(*value) == (UT)g_last_varint && g_consumed == __CPROVER_old(g_consumed) + N)) \
+__CPROVER_ensures(!__CPROVER_return_value ==> ENC(*value) == ENC(__CPROVER_old(*value)));
+FLOAT_CONTRACTS(F32Traits, float, unsigned int, vf_EncodeFloat, 4)
+FLOAT_CONTRACTS(F64Traits, double, unsigned long, vf_EncodeDouble, 8)
+
+/* ---- string serialize: the whole string goes to the stream in one WriteString call, nothing else is written */
+struct String *g_ws_arg;
+void CodedOutputStream_WriteString(struct CodedOutputStream *os, struct String *s) { g_ws_calls++; g_ws_arg = s; g_written += g_str_len; }
+void StringTraits_serialize(struct String *value, struct CodedOutputStream *os)
+__CPROVER_requires(g_written < (1UL << 60) && g_str_len < (1UL << 40) && g_ws_calls == 0)
+__CPROVER_assigns(g_written, g_ws_calls, g_ws_arg)
+__CPROVER_ensures(g_ws_calls == 1 && g_ws_arg == value && g_written == __CPROVER_old(g_written) + g_str_len)
+;
 #endif
